@@ -4,7 +4,7 @@
 use crate::srv::{self, Incarnation, ScnConfig};
 use crate::util::{err_class, res_of, Rng, TraceWriter};
 use bytes::Bytes;
-use iggy::client::Client;
+use iggy::client::{Client, StreamClient, TopicClient};
 use iggy::compression::compression_algorithm::CompressionAlgorithm;
 use iggy::consumer::Consumer;
 use iggy::error::IggyError;
@@ -18,6 +18,7 @@ use iggy::utils::topic_size::MaxTopicSize;
 use serde::Deserialize;
 use serde_json::{json, Value};
 use std::collections::BTreeSet;
+use std::sync::Arc;
 
 #[derive(Debug, Clone, Deserialize)]
 pub struct Scenario {
@@ -86,7 +87,11 @@ impl CatLens {
             rng: Rng(scn.seed ^ 0xca7),
             tick: 0,
         };
-        let r = self.run_inner(idx, &mut run, out);
+        let r = if scn.steps.first().map(|s| s["op"] == "race").unwrap_or(false) {
+            self.run_race(idx, &mut run, out)
+        } else {
+            self.run_inner(idx, &mut run, out)
+        };
         run.members.clear();
         drop(run.admin.take());
         if let Some(inc) = run.inc.take() {
@@ -94,6 +99,100 @@ impl CatLens {
         }
         let _ = std::fs::remove_dir_all(&dir);
         r
+    }
+
+    /// Two clients at once (specs/IggyCatalogueMT.tla): client A creates an entity while client B purges it as soon as it
+    /// exists; the schedule point at the entry of FileState::apply (guarded hook) holds A's journal entry back until B's has
+    /// been appended - the interleaving the handlers' lock discipline must exclude. Both commands are acknowledged; the
+    /// server is then restarted: it must start and show the same catalogue.
+    fn run_race(&self, idx: usize, run: &mut Run, out: &mut TraceWriter) -> Result<(), String> {
+        use std::sync::atomic::{AtomicBool, Ordering};
+        let pair = run.scn.steps[0]["pair"].as_str().unwrap_or("topic").to_string();
+        let (create_code, purge_code) = if pair == "stream" { (202u64, 205u64) } else { (302u64, 305u64) };
+        self.start_inc(run)?;
+        out.emit(&json!({"ev":"reset","sc":idx,"id":run.scn.id,"kind":"race"}));
+        let inc = run.inc.as_ref().unwrap();
+        let a = inc.rt.block_on(srv::tcp_root(inc.tcp))?;
+        let b = inc.rt.block_on(srv::tcp_root(inc.tcp))?;
+        let s1 = Identifier::numeric(1).unwrap();
+        let t1 = Identifier::numeric(1).unwrap();
+        if pair != "stream" {
+            inc.rt.block_on(a.create_stream("race-stream", Some(1))).map_err(|e| e.to_string())?;
+        }
+        let purge_entered = Arc::new(AtomicBool::new(false));
+        let purge_done = Arc::new(AtomicBool::new(false));
+        let create_released = Arc::new(AtomicBool::new(false));
+        let forced = Arc::new(AtomicBool::new(false));
+        {
+            let (pe, pd, cr, fo) = (purge_entered.clone(), purge_done.clone(), create_released.clone(), forced.clone());
+            server::verif::set_point_hook(Some(Arc::new(move |name, k| {
+                let (pe, pd, cr, fo) = (pe.clone(), pd.clone(), cr.clone(), fo.clone());
+                Box::pin(async move {
+                    if name == "state.apply.enter" && k == purge_code {
+                        pe.store(true, Ordering::SeqCst);
+                    } else if name == "state.apply.appended" && pe.load(Ordering::SeqCst) && !cr.load(Ordering::SeqCst) {
+                        pd.store(true, Ordering::SeqCst);
+                    } else if name == "state.apply.enter" && k == create_code {
+                        // hold the create's journal entry back (bounded: a lock discipline that excludes this is fine)
+                        let t0 = std::time::Instant::now();
+                        while !pd.load(Ordering::SeqCst) && t0.elapsed() < std::time::Duration::from_millis(1500) {
+                            tokio::time::sleep(std::time::Duration::from_millis(1)).await;
+                        }
+                        fo.store(pd.load(Ordering::SeqCst), Ordering::SeqCst);
+                        cr.store(true, Ordering::SeqCst);
+                    }
+                })
+            })));
+        }
+        let (ra, rb) = inc.rt.block_on(async {
+            let fa = async {
+                if pair == "stream" {
+                    res_of(&a.create_stream("race-stream", Some(1)).await)
+                } else {
+                    res_of(&a.create_topic(&s1, "race-topic", 1, CompressionAlgorithm::None, None, Some(1), IggyExpiry::NeverExpire, MaxTopicSize::Unlimited).await)
+                }
+            };
+            let fb = async {
+                let mut last = String::new();
+                for _ in 0..3000 {
+                    let r = if pair == "stream" { b.purge_stream(&s1).await } else { b.purge_topic(&s1, &t1).await };
+                    last = res_of(&r);
+                    if r.is_ok() {
+                        break;
+                    }
+                    tokio::time::sleep(std::time::Duration::from_micros(500)).await;
+                }
+                last
+            };
+            tokio::join!(fa, fb)
+        });
+        server::verif::set_point_hook(None);
+        let view = |c: &TcpClient, rt: &tokio::runtime::Runtime| -> String {
+            rt.block_on(async {
+                let streams = c.get_streams().await.map(|v| v.iter().map(|s| format!("{}:{}:{}", s.id, s.name, s.topics_count)).collect::<Vec<_>>());
+                let topics = c.get_topics(&Identifier::numeric(1).unwrap()).await.map(|v| v.iter().map(|t| format!("{}:{}:{}", t.id, t.name, t.partitions_count)).collect::<Vec<_>>());
+                format!("{streams:?}|{topics:?}")
+            })
+        };
+        let before = view(&a, &inc.rt);
+        drop(a);
+        drop(b);
+        run.members.clear();
+        run.members = vec![None, None, None];
+        drop(run.admin.take());
+        let inc = run.inc.take().unwrap();
+        let _ = srv::stop(inc, true);
+        let (restart, same) = match self.start_inc(run) {
+            Err(e) => (format!("failed: {e}"), false),
+            Ok(()) => {
+                let inc = run.inc.as_ref().unwrap();
+                let c = inc.rt.block_on(srv::tcp_root(inc.tcp))?;
+                let after = view(&c, &inc.rt);
+                ("ok".to_string(), after == before)
+            }
+        };
+        out.emit(&json!({"ev":"race","sc":idx,"i":1,"pair":pair,"acks":[ra, rb],"forced":forced.load(Ordering::SeqCst),"restart":restart,"same":same,"view":before}));
+        Ok(())
     }
 
     fn connect_all(&self, run: &mut Run) -> Result<(), String> {
